@@ -108,7 +108,7 @@ def Path.reduce (p : Path) : Path :=
     | none => p
   else p
 
-def sumL (l : List Nat) : Nat := l.foldl (· + ·) 0
+def sumL (l : List Nat) : Nat := l.sum
 
 /-- `Path::unori_eq` = `PartialEq for TngComp` -/
 def unoriEq (a b : Path) : Bool :=
